@@ -733,6 +733,10 @@ func (in *Interp) call(caller *frame, fn Value, args []Value, site ssa.Instructi
 			return nil // initialisers of stubbed packages
 		}
 		if f.Blocks == nil || !in.canInterpret(f) {
+			if in.opaqueCallee(f) {
+				in.usedStubs["opaque:"+f.String()]++
+				return in.opaqueResult(f.Signature.Results())
+			}
 			in.unsupported("call to external %s", f.String())
 		}
 		return in.callFunctionD(caller, f, args, nil, isDefer)
@@ -768,6 +772,60 @@ func (in *Interp) canInterpret(f *ssa.Function) bool {
 		return true
 	}
 	return in.P.interpreted(f.Pkg.Pkg) || in.cfg.ExtraPkgs[f.Pkg.Pkg.Path()]
+}
+
+// opaqueCallee: library functions of the packages a harness declares opaque
+// (crypto plumbing, testify) are replaced by nondeterminism-free stubs that
+// return zero / fresh opaque values and never fail.
+func (in *Interp) opaqueCallee(f *ssa.Function) bool {
+	if len(in.cfg.OpaquePkgs) == 0 {
+		return false
+	}
+	var path string
+	if f.Pkg != nil {
+		path = f.Pkg.Pkg.Path()
+	} else if f.Object() != nil && f.Object().Pkg() != nil {
+		path = f.Object().Pkg().Path()
+	} else if o := f.Origin(); o != nil && o.Pkg != nil {
+		path = o.Pkg.Pkg.Path()
+	}
+	for _, p := range in.cfg.OpaquePkgs {
+		if path == p || strings.HasPrefix(path, p+"/") || (strings.HasSuffix(p, "/") && strings.HasPrefix(path, p)) {
+			return true
+		}
+	}
+	return false
+}
+
+func (in *Interp) opaqueResult(res *types.Tuple) Value {
+	one := func(t types.Type) Value {
+		switch u := t.Underlying().(type) {
+		case *types.Pointer:
+			cell := new(Value)
+			*cell = in.zero(u.Elem())
+			return cell
+		case *types.Interface:
+			if types.Identical(t, types.Universe.Lookup("error").Type()) {
+				return Iface{}
+			}
+			return in.ifaceOf(in.newObj("opaque"))
+		case *types.Slice:
+			arr := []Value{}
+			return Slice{arr: &arr}
+		}
+		return in.zero(t)
+	}
+	switch res.Len() {
+	case 0:
+		return nil
+	case 1:
+		return one(res.At(0).Type())
+	}
+	out := make(Tuple, res.Len())
+	for i := range out {
+		out[i] = one(res.At(i).Type())
+	}
+	return out
 }
 
 func (in *Interp) runtimeError(msg string) Value {
@@ -945,7 +1003,11 @@ func (fr *frame) prepareCall(c *ssa.CallCommon) (Value, []Value) {
 			}
 			if o, ok := recv.V.(*Obj); ok {
 				name := c.Method.Name()
+				msig, _ := c.Method.Type().(*types.Signature)
 				fn = &NativeFunc{Name: o.Kind + "." + name, Fn: func(in *Interp, a []Value) Value {
+					if o.Kind == "opaque" && msig != nil {
+						return in.opaqueResult(msig.Results())
+					}
 					return in.objMethod(fr, o, name, a)
 				}}
 			} else {
